@@ -685,7 +685,7 @@ func vCfg(f []string) (res string) {
 	take := func() []string {
 		last := -1
 		for k := 0; k < 200; k++ {
-			time.Sleep(6 * time.Millisecond)
+			time.Sleep(6 * time.Millisecond * m)
 			mu.Lock()
 			n := len(got)
 			mu.Unlock()
@@ -888,7 +888,7 @@ func vCfg(f []string) (res string) {
 					time.Sleep(5 * time.Millisecond)
 					hold.Store(0)
 				}
-				time.Sleep(8 * time.Millisecond)
+				time.Sleep(8 * time.Millisecond * m)
 			} else {
 				bad = true
 			}
@@ -925,7 +925,7 @@ func vCfg(f []string) (res string) {
 				time.Sleep(5 * time.Millisecond) // several iterations of the request loop with nobody reading the channel
 				hold.Store(0)
 			}
-			time.Sleep(8 * time.Millisecond)
+			time.Sleep(8 * time.Millisecond * m)
 			out = append(out, fmtIDs("T:", take()))
 		case "r":
 			now := nextI()
